@@ -28,9 +28,9 @@ ID = 'C16'
 HASHSEED_IS_VIOLATION = False
 
 TIERS = {
-    'quick': {'runs': 36000, 'replica_runs': 400, 'hash_seeds': [1, 4242], 'timeout_s': 420, 'shrink_s': 40},
+    'quick': {'runs': 36000, 'replica_runs': 400, 'hash_seeds': [1, 4242], 'timeout_s': 1200, 'shrink_s': 40},
     'thorough': {'runs': 200000, 'replica_runs': 2000, 'hash_seeds': [1, 7, 99, 4242, 31337],
-                 'timeout_s': 3000, 'shrink_s': 120},
+                 'timeout_s': 9000, 'shrink_s': 120},
 }
 
 RULE = ('Each run plans one invocation history of the real main(): a model (AMR / default / custom JSON via '
